@@ -499,7 +499,7 @@ class Cid(object):
 
         check_description, check_type, check_rule = (items + 3 * [""])[:3]
         self._location.advance_cell()
-        if check_description == "":
+        if check_description.strip() == "":
             raise errors.InterfaceError("check description must be specified", self._location)
         self._location.advance_cell()
         check_class_name = check_type + "Check"
